@@ -57,6 +57,18 @@ Theorem C04_fixed_honoured : forall (l : list Q) i f w, (Z.of_nat (length l) <= 
 Proof. exact fixed_honoured. Qed.
 Print Assumptions C04_fixed_honoured.
 
+(* ... and "as given" starts where the target is added: addTarget records a weight that is not negative as
+   it stands, a negative one as "no fixed weight" (the check's clause spec_given is this statement on the
+   implementation's observables) *)
+Theorem C04_add_records_given_weight : forall ws : list Q,
+  Forall (fun w => (0 <= w)%Q) ws -> map (clamp_fixed arithQ) ws = ws.
+Proof. exact add_records_given. Qed.
+Print Assumptions C04_add_records_given_weight.
+
+Theorem C04_add_negative_is_dynamic : forall w : Q, (w < 0)%Q -> clamp_fixed arithQ w = 0%Q.
+Proof. exact add_negative_is_dynamic. Qed.
+Print Assumptions C04_add_negative_is_dynamic.
+
 (* scaled down proportionally if they exceed 100% (dynamic targets then get nothing) *)
 Theorem C04_scaled_down : forall (l : list Q) i f w, (Z.of_nat (length l) <= 3000000000)%Z ->
   nth_error l i = Some f -> (0 < f)%Q -> (1 < sum_pos l)%Q ->
